@@ -42,7 +42,7 @@ type C19Case struct {
 	Reload  bool      `json:"reload"`
 }
 
-var c19Ops = []string{"authorize", "authorize", "query", "string", "code", "getblockid", "createblock", "append", "seal", "serialize", "revocation",
+var c19Ops = []string{"authorize", "authorize", "authorize-failing", "query", "string", "code", "getblockid", "createblock", "append", "seal", "serialize", "revocation",
 	"parse-fact", "parse-rule", "parse-check", "verify"}
 
 var c19Texts = struct{ facts, rules, checks []string }{
@@ -102,6 +102,16 @@ func (s *c19Shared) runOp(tok *biscuit.Biscuit, g, i int, op C19Op) string {
 			return "authorize: verify error " + err.Error()
 		}
 		return "authorize:" + bridge.Classify(a.Authorize()).String()
+	case "authorize-failing":
+		// a request whose evaluation stops half-way through a compound expression (division by zero
+		// after operands were pushed): its failure is its own, the others' results are theirs
+		a, err := newAuth()
+		if err != nil {
+			return "authorize-failing: verify error " + err.Error()
+		}
+		a.AddCheck(bridge.ToCheck(m.Check{Queries: []m.Rule{{Head: m.Pred{Name: "query"}, Exprs: []*m.Expr{
+			m.Bin("&&", m.Bin(">=", m.V(m.Int(int64(g))), m.V(m.Int(0))), m.Bin("<", m.Bin("/", m.V(m.Int(int64(i+1))), m.V(m.Int(0))), m.V(m.Int(50))))}}}}))
+		return "authorize-failing:" + bridge.Classify(a.Authorize()).String()
 	case "query":
 		a, err := newAuth()
 		if err != nil {
@@ -332,7 +342,7 @@ func checkC19(c C19Case, rec *obs.Recorder) *obs.Violation {
 			switch op.Op {
 			case "append", "seal", "createblock", "getblockid":
 				derives = true
-			case "authorize", "query", "string", "code", "verify", "serialize":
+			case "authorize", "authorize-failing", "query", "string", "code", "verify", "serialize":
 				reads = true
 			}
 		}
@@ -421,7 +431,7 @@ func TestC19(t *testing.T) {
 			os.Remove(c19Log)
 		}
 	}()
-	rec.SetExtra("rule", "rapid sets of 2-8 goroutine scripts of 3-15 operations over one shared token (1-8 blocks, built or reloaded from bytes, authority table with spare capacity), shared biscuit.Fact / Rule / Check / Policy values and one shared parser.Parser: AuthorizerFor + shared content + Authorize, Query, signature verification alone, String, Code, GetBlockID with a fresh symbol, CreateBlock+add+Build, Append, Seal, Serialize, RevocationIds, parser.Fact / Rule / Check; start barrier, GOMAXPROCS in {2,4,16}, drawn Gosched points; every script set runs 20 times. Executed in a worker built with -race (GORACE=halt_on_error=1 exitcode=66). Oracle: no race report, and every operation's canonical result equals the result of the same script run alone on a private copy of the token (derivations use per-operation deterministic random streams). Non-trivial = at least two goroutines, one deriving (append / seal / create block / fact lookup) while another verifies, authorizes, queries, prints or serializes; distinct by (scripts, token, GOMAXPROCS).")
+	rec.SetExtra("rule", "rapid sets of 2-8 goroutine scripts of 3-15 operations over one shared token (1-8 blocks, built or reloaded from bytes, authority table with spare capacity), shared biscuit.Fact / Rule / Check / Policy values and one shared parser.Parser: AuthorizerFor + shared content + Authorize, the same with a check whose evaluation fails half-way through a compound expression, Query, signature verification alone, String, Code, GetBlockID with a fresh symbol, CreateBlock+add+Build, Append, Seal, Serialize, RevocationIds, parser.Fact / Rule / Check; start barrier, GOMAXPROCS in {2,4,16}, drawn Gosched points; every script set runs 20 times. Executed in a worker built with -race (GORACE=halt_on_error=1 exitcode=66). Oracle: no race report, and every operation's canonical result equals the result of the same script run alone on a private copy of the token (derivations use per-operation deterministic random streams). Non-trivial = at least two goroutines, one deriving (append / seal / create block / fact lookup) while another verifies, authorizes, queries, prints or serializes; distinct by (scripts, token, GOMAXPROCS).")
 	rec.SetExtra("assumptions", []string{"the harness does not own the scheduler: the race detector reports unsynchronised access pairs whatever the timing, wrong results without a data race are only sampled", "a worker that exceeds 120 s is inconclusive"})
 	harness.RunWith(t, harness.Spec[C19Case]{ID: "C19", Draw: drawC19, Check: checkC19}, rec)
 }
